@@ -28,7 +28,8 @@ check had to be strengthened):
 
 * `Cxx-revert-<commit>`: the reversal of every `fix:` commit (the defect of the pinned tree comes
   back). Each must be caught by the property's quick check.
-* `Cxx-agent`, `Cxx-agent2`, `Cxx-agent3`, `Cxx-agent4`, `Cxx-agent5`: five changes per property, each written by a fresh
+* `Cxx-agent`, `Cxx-agent2`, ..., `Cxx-agent5` (all twenty properties) and `Cxx-agent6` (twelve properties: C01-C06,
+  C08-C10, C12-C14): five or six changes per property, each written by a fresh
   sub-agent that was given only the text of the property and a scratch worktree of `/repo`
   (nothing from `/verif`; the briefs are kept as `seeded/BRIEF_batch*_example_C08.txt`), asked for
   a plausible refactoring that breaks the property, still compiles, passes the 102 existing tests
@@ -47,9 +48,10 @@ check had to be strengthened):
 
 `python3 tools/seeded.py seeded/<name>` applies the patch to `/repo`, runs the property's quick
 check, restores `/repo` and records the outcome. First-run outcomes: all 17 reversals DETECTED;
-75 of the 100 agent changes DETECTED (batch 1: 19/20, batch 2: 17/20, batch 3: 15/20, batch 4:
-12/20, batch 5: 12/19 plus one whose stream was added beforehand -- the later batches were steered away
-from everything already covered). The twenty-four misses and what was done (each is DETECTED now):
+78 of the 112 agent changes DETECTED (batch 1: 19/20, batch 2: 17/20, batch 3: 15/20, batch 4:
+12/20, batch 5: 12/19 plus one whose stream was added beforehand, batch 6: 3/12 -- the later batches were
+steered away from everything already covered, so each batch measures what is still uncovered, not the
+detection rate of the whole). The thirty-three misses and what was done (each is DETECTED now):
 
 * `C02-agent` (Quadratic+Quadratic keyed by the unordered pair): the quick tier ran only two
   Quadratic+Quadratic pairs and no operand listed both (i,j) and (j,i) -> stream `asym`.
@@ -105,6 +107,28 @@ from everything already covered). The twenty-four misses and what was done (each
   (the largest id among them) in 30% of the instances and a `fixed-above` stream.
 * `C13-agent5` (`Quadratic::used_decision_variable_ids` empty without linear part): the continuous
   fault never sat in a quadratic entry -> it does, and a `pure-quad` stream converts `c*x_a*x_b <= 0`.
+
+* `C01-agent6` (`Function::evaluate_samples` dispatches on the variant; the unset oneof gives no values): only
+  `evaluate` was exercised -> the harness also runs `evaluate_samples` on the same state and both must agree.
+* `C02-agent6` (`impl Sub for Function`, sign slip in the `c - f` arm): a Constant variant on the left of a generic
+  `Function - Function` only arose by chance -> stream `variant` (every ordered pair of stored variants, every operator).
+* `C03-agent6` (`Instance::evaluate` inserts fixed values after the dependency pass): no fixed part assigned a dependent
+  variable -> stale in-bound values for dependent variables in 35% of the instances with dependencies.
+* `C04-agent6` (`Instance::partial_evaluate` leaves the dependency functions alone): nothing fixed a variable after a
+  substitution and read the result through `evaluate_samples` -> stream `inst/fix-then-samples` (`subst_pe_samples`).
+* `C09-agent6` (penalty methods drop removed constraints carrying a `parameter_id` reason parameter): no removed
+  constraint looked like the leftover of a penalty round -> one in four does.
+* `C10-agent6` (`Function::partial_evaluate` returns early when `degree() == 0`): zero coefficients of a parameter were
+  planted in Linear messages only -> Quadratic messages all of whose entries are explicit zeros.
+* `C12-agent6` (tag clamped to `i64::MAX`): encoded ids stopped at 2^62 -> ids around and above 2^63; the model now
+  renders the tag as `id as i64` (`Transform.as_i64`, `C12_tag_identifies`).
+* `C13-agent6` (`defined_ids` skips fixed variables): no variable was fixed -> the largest-id variable is fixed in 40%.
+* `C14-agent6` (removed constraints judged with the 1e-7 tolerance in `Instance::evaluate`): no residual between 1e-7
+  and 1e-6 -> stream `near-tolerance` (exact dyadic residuals 2^-21, 2^-24, 2^-19 along histories).
+
+A full regression of every seed after each batch of generator changes showed one chance-dependent detection
+(`C01-agent2`, found by the random `missing` stream until other streams shifted it): its trigger is now produced by a
+deterministic stream. A further regression under `VERIF_SEED=1` detected every seed (`seeded/*/result_seed1.json`).
 
 Three streams were added *before* the first run of the corresponding seed, after reading its
 description, because the generator could not have produced the needed input: two- and three-step
